@@ -58,6 +58,10 @@ def Hot (s : S) : Prop := guardedB s.evs = true ∧ lastChk s.evs = true
   simp [Safe, emit, guardedB, Ev.isGuarded]
 @[simp, grind =] theorem hot_emit_got (k) (s : S) : Hot (emit (.got k) s) ↔ Hot s := by
   simp [Hot, emit, guardedB, Ev.isGuarded, lastChk]
+@[simp, grind =] theorem safe_emit_dirOpened (s : S) : Safe (emit .dirOpened s) ↔ Safe s := by
+  simp [Safe, emit, guardedB, Ev.isGuarded]
+@[simp, grind =] theorem hot_emit_dirOpened (s : S) : Hot (emit .dirOpened s) ↔ Hot s := by
+  simp [Hot, emit, guardedB, Ev.isGuarded, lastChk]
 @[simp, grind =] theorem safe_emit_cc (s : S) : Safe (emit .closeConn s) ↔ Safe s := by
   simp [Safe, emit, guardedB, Ev.isGuarded]
 @[simp, grind =] theorem hot_emit_cc (s : S) : Hot (emit .closeConn s) ↔ Hot s := by
@@ -136,9 +140,9 @@ def Hot (s : S) : Prop := guardedB s.evs = true ∧ lastChk s.evs = true
 @[simp, grind =] theorem doWrite_hot (k n h) (s : S) : Hot (doWrite k n h s).2 ↔ Hot s := by
   unfold doWrite; grind
 @[simp, grind =] theorem doOpendir_safe (p) (s : S) : Safe (doOpendir p s).2 ↔ Hot s := by
-  unfold doOpendir; grind [FsEffect.isRelease]
+  unfold doOpendir; simp only []; (repeat' split) <;> simp [FsEffect.isRelease]
 @[simp, grind =] theorem doOpendir_hot (p) (s : S) : Hot (doOpendir p s).2 ↔ Hot s := by
-  unfold doOpendir; grind
+  unfold doOpendir; simp only []; (repeat' split) <;> simp
 @[simp, grind =] theorem doStat_safe (p) (s : S) : Safe (doStat p s).2 ↔ Hot s := by
   unfold doStat; grind [FsEffect.isRelease]
 @[simp, grind =] theorem doStat_hot (p) (s : S) : Hot (doStat p s).2 ↔ Hot s := by
